@@ -146,6 +146,17 @@ def step (st : State) (line : String) : State × String :=
           | _ => false
         (st, s!"T {showBytes txt} {showSsc txt (some sizeofAttr)} match={b01 m}")
     | _, _ => bad
+  | "rtl" :: f :: obj =>
+    match parseNat f, parseObj obj with
+    | some flags, some o =>
+      match typeText o flags with
+      | none => (st, "T loops")
+      | some txt =>
+        let m := match typeSscanf txt with
+          | .ok (some p) => attrsAgree o p
+          | _ => false
+        (st, s!"T {showBytes txt} {showSsc txt (some sizeofAttr)} match={b01 m}")
+    | _, _ => bad
   | "lvl" :: _topo :: _depth :: _n :: f :: obj =>
     match parseNat f, parseObj obj with
     | some flags, some o =>
